@@ -511,6 +511,9 @@ fn spaces(tier: Tier) -> Vec<Space> {
             v.push(mk("no-fragment-deep-lists", 0, (&lists, 4), None, None));
             v.push(mk("one-fragment-a", 1, (&rep, 2), Some((&rep, 1)), None));
             v.push(mk("one-fragment-b", 1, (&rep, 1), Some((&rep, 2)), None));
+            // main and body both two levels deep: a body whose depth comes from a level nested in
+            // another level (inline fragment, `fields { type }`), spread shallow and again deep
+            v.push(mk("one-fragment-c", 1, (&small, 2), Some((&small, 2)), None));
             v.push(mk("two-fragments", 2, (&small, 1), Some((&small, 1)), Some((&small, 1))));
         }
         Tier::Thorough => {
